@@ -1,5 +1,5 @@
 From Coq Require Import List ZArith Bool Lia Permutation.
-From STS Require Import Model.Sender.
+From STS Require Import Model.Queue Model.Sender Proofs.QueueP.
 Import ListNotations.
 Open Scope Z_scope.
 
@@ -262,6 +262,124 @@ Theorem unchanged_not_requeued : forall disabled ih hi min_age mtime f,
 Proof.
   intros. destruct (scan_returns disabled ih hi min_age mtime f) eqn:E; auto.
   apply scan_returns_iff in E. rewrite H in E. destruct E as [_ [_ [_ [_ [_ [_ [_ [E|E]]]]]]]]; congruence.
+Qed.
+
+(* ---- scan histories ---- *)
+Lemma scan_file_split cfg now c d :
+  scan_file cfg now c d = eligible cfg now d && changed_since (sc_get c (df_name d)) d.
+Proof.
+  unfold scan_file, eligible, scan_returns, changed_since; simpl.
+  destruct (sc_get c (df_name d)) as [[s m]|]; rewrite ?andb_true_r; reflexivity.
+Qed.
+
+Lemma sc_get_fold : forall ret c n,
+  sc_get (fold_left (fun c d => sc_put c (df_name d) (df_size d, df_mtime d)) ret c) n =
+  fold_left (fun a d => if name_eqb (df_name d) n then Some (df_size d, df_mtime d) else a) ret (sc_get c n).
+Proof.
+  induction ret as [|d r IH]; intros c n; simpl; [reflexivity|].
+  rewrite IH. simpl. destruct (name_eqb (df_name d) n); reflexivity.
+Qed.
+
+Lemma last_returned_app : forall o1 o2 n acc,
+  last_returned (o1 ++ o2) n acc = last_returned o2 n (last_returned o1 n acc).
+Proof. induction o1 as [|o r IH]; intros; simpl; [reflexivity|apply IH]. Qed.
+
+Lemma scan_run_cons cfg now world r c :
+  scan_run ((cfg, now, world) :: r) c =
+  filter (scan_file cfg now c) world :: scan_run r (snd (scan_once cfg now world c)).
+Proof. reflexivity. Qed.
+
+Lemma scan_cache_cons cfg now world r c :
+  scan_cache ((cfg, now, world) :: r) c = scan_cache r (snd (scan_once cfg now world c)).
+Proof. reflexivity. Qed.
+
+(* the cache always holds, for every name, the version that was returned last *)
+Lemma cache_tracks : forall evs c outs,
+  (forall n, sc_get c n = last_returned outs n None) ->
+  forall n, sc_get (scan_cache evs c) n = last_returned (outs ++ scan_run evs c) n None.
+Proof.
+  induction evs as [|[[cfg now] world] r IH]; intros c outs J n.
+  - simpl. rewrite app_nil_r. apply J.
+  - rewrite scan_run_cons, scan_cache_cons.
+    replace (outs ++ filter (scan_file cfg now c) world :: scan_run r (snd (scan_once cfg now world c)))
+      with ((outs ++ [filter (scan_file cfg now c) world]) ++ scan_run r (snd (scan_once cfg now world c)))
+      by (rewrite <- app_assoc; reflexivity).
+    apply IH. intros m. unfold scan_once. cbn [snd]. rewrite sc_get_fold, last_returned_app.
+    cbn [last_returned]. rewrite J. reflexivity.
+Qed.
+
+Lemma scan_run_app : forall pre rest c,
+  scan_run (pre ++ rest) c = scan_run pre c ++ scan_run rest (scan_cache pre c).
+Proof.
+  induction pre as [|[[cfg now] world] r IH]; intros rest c; [reflexivity|].
+  rewrite <- app_comm_cons, !scan_run_cons, scan_cache_cons, IH. reflexivity.
+Qed.
+
+Lemma scan_run_length : forall evs c, length (scan_run evs c) = length evs.
+Proof.
+  induction evs as [|[[cfg now] world] r IH]; intros c; [reflexivity|].
+  rewrite scan_run_cons. simpl. rewrite IH. reflexivity.
+Qed.
+
+(* C17 over histories: in any history of scans (trees, clocks and the disable
+   marker changing arbitrarily in between), a scan returns exactly the files that
+   are eligible at that moment and whose (size, mtime) differs from the version
+   of that name returned last - in either direction of time. *)
+Theorem scan_history : forall pre cfg now world post,
+  nth (length pre) (scan_run (pre ++ (cfg, now, world) :: post) []) [] =
+  filter (fun d => eligible cfg now d &&
+                   changed_since (last_returned (scan_run pre []) (df_name d) None) d) world.
+Proof.
+  intros. rewrite scan_run_app. rewrite app_nth2; rewrite scan_run_length; [|auto].
+  rewrite Nat.sub_diag. simpl. unfold scan_once. simpl.
+  apply filter_ext. intros d. rewrite scan_file_split.
+  rewrite (cache_tracks pre [] [] (fun _ => eq_refl)). reflexivity.
+Qed.
+
+(* a file returned by one scan and unchanged at the next one is not returned again *)
+Theorem returned_then_unchanged_skipped : forall pre cfg now world cfg' now' world' post d,
+  In d (nth (length pre) (scan_run (pre ++ (cfg, now, world) :: (cfg', now', world') :: post) []) []) ->
+  NoDup (map df_name world) ->
+  ~ In d (nth (S (length pre)) (scan_run (pre ++ (cfg, now, world) :: (cfg', now', world') :: post) []) []).
+Proof.
+  intros pre cfg now world cfg' now' world' post d Hin Hnd Hin2.
+  pose proof (scan_history (pre ++ [(cfg, now, world)]) cfg' now' world' post) as H2.
+  rewrite <- app_assoc in H2. simpl in H2. rewrite app_length in H2. simpl in H2.
+  rewrite Nat.add_1_r in H2. rewrite H2 in Hin2.
+  apply filter_In in Hin2 as [_ Hc0]. apply andb_true_iff in Hc0 as [_ Hc].
+  rewrite scan_run_app in Hc. simpl in Hc. rewrite last_returned_app in Hc. simpl in Hc.
+  pose proof (scan_history pre cfg now world ((cfg', now', world') :: post)) as H1.
+  rewrite H1 in Hin.
+  (* the first scan's output is a sub-list of a NoDup-named world containing d:
+     folding over it leaves d's version *)
+  set (ret := fst (scan_once cfg now world (scan_cache pre []))) in *.
+  assert (Hret : In d ret).
+  { unfold ret, scan_once; simpl. apply filter_In in Hin as [Hw He]. apply filter_In. split; auto.
+    rewrite scan_file_split. rewrite (cache_tracks pre [] [] (fun _ => eq_refl)). exact He. }
+  assert (Hnd' : NoDup (map df_name ret)).
+  { unfold ret, scan_once; simpl. clear -Hnd. induction world as [|x w IH]; simpl; [constructor|].
+    inversion Hnd as [|y ys Hx Hw]; subst.
+    destruct (scan_file cfg now (scan_cache pre []) x); simpl; auto.
+    constructor; auto. intros Hcc. apply Hx. apply in_map_iff in Hcc as [z [Ez Hz]].
+    apply filter_In in Hz as [Hz _]. apply in_map_iff. exists z; auto. }
+  assert (F : forall l acc, In d l -> NoDup (map df_name l) ->
+            fold_left (fun a x => if name_eqb (df_name x) (df_name d) then Some (df_size x, df_mtime x) else a) l acc
+            = Some (df_size d, df_mtime d)).
+  { induction l as [|x l IH]; intros acc Hi Hn; [destruct Hi|]. simpl.
+    inversion Hn as [|y ys Hx Hl]; subst. destruct Hi as [->|Hi].
+    - rewrite name_eqb_refl.
+      assert (G : forall l0 a0, ~ In (df_name d) (map df_name l0) ->
+                  fold_left (fun a x => if name_eqb (df_name x) (df_name d) then Some (df_size x, df_mtime x) else a) l0 a0 = a0).
+      { induction l0 as [|z l0 IH0]; intros a0 Hni; simpl; [reflexivity|].
+        destruct (name_eqb (df_name z) (df_name d)) eqn:E.
+        - exfalso. apply Hni. left. apply name_eqb_eq. exact E.
+        - apply IH0. intros Hcc. apply Hni. right; exact Hcc. }
+      apply G. exact Hx.
+    - apply IH; auto. }
+  unfold ret in Hret, Hnd'. unfold scan_once in Hret, Hnd'. simpl in Hret, Hnd'.
+  unfold scan_once in Hc. simpl in Hc.
+  rewrite (F _ _ Hret Hnd') in Hc. unfold changed_since in Hc.
+  rewrite !Z.eqb_refl in Hc. discriminate.
 Qed.
 
 (* ------------------------------------------------------------------ *)
